@@ -392,7 +392,9 @@ func runRun1(m map[string]string) string {
 			defer t.Close()
 			target = t.Addr
 		case "h2raw":
-			target = sharedH2Raw()
+			t := newH2Raw()
+			defer t.Close()
+			target = t.Addr
 		default:
 			target = sharedHostile("").Addr
 		}
@@ -434,7 +436,9 @@ func runRun1(m map[string]string) string {
 			defer t.Close()
 			target = t.Addr
 		case "h2raw":
-			target = sharedH2Raw()
+			t := newH2Raw()
+			defer t.Close()
+			target = t.Addr
 		default:
 			target = sharedHostile("").Addr
 		}
